@@ -75,6 +75,7 @@ def tool_sel(m, msgs):
 
 def compare(ctx, state, sel, projs, what, case):
     n_some = 0
+    case = dict(case, interval=[list(joinref.selected(state, p)) for p in projs], what=what)
     for i, (p, g) in enumerate(zip(projs, sel)):
         lo, hi = joinref.selected(state, p)
         if lo is True and not g:
@@ -203,6 +204,16 @@ def replay(ctx, case):
     for k, p in s.events:
         if k in ('cmd', 'err') or (k == 'out' and (p.startswith('Only') or p.startswith('Breaking'))):
             print(k, outline.strip_sgr(p))
+    ctx.ev()
+    if case.get('interval') and not case.get('boundary') and len(case['interval']) == len(msgs):
+        which = 'breakpoint' if case['commands'][-1].lstrip('w l').startswith('b') else 'filter'
+        m = s.ctl.stop_matcher if which == 'breakpoint' else s.ctl.display_matcher
+        for i, ((lo, hi), x) in enumerate(zip(case['interval'], msgs)):
+            g = bool(m.matches(x))
+            if (lo is True and not g) or (hi is False and g):
+                ctx.violation('accumulation', 'after the stored commands the %s matcher %s message %d, the stored model interval is [%r, %r]' % (
+                    which, 'selects' if g else 'does not select', i, lo, hi), case)
+                break
     if 'message_index' in case:
         i = case['message_index']
         print('message', i, case['lines'][i], 'filter:', s.ctl.display_matcher.matches(msgs[i]), 'breakpoint:', s.ctl.stop_matcher.matches(msgs[i]))
